@@ -82,9 +82,9 @@ func (g *G) runMatchCase(c *matchCase, reps int) {
 			p = intify(p, g)
 		}
 		before := canon(p) + canon(f) + canon(bs)
-		typedBefore := fmt.Sprintf("%#v|%#v|%#v", p, f, bs)
+		typedBefore := typedSnap(p) + "|" + typedSnap(f) + "|" + typedSnap(bs)
 		class, res := callMatch(p, f, bs)
-		if canon(p)+canon(f)+canon(bs) != before || fmt.Sprintf("%#v|%#v|%#v", p, f, bs) != typedBefore {
+		if canon(p)+canon(f)+canon(bs) != before || typedSnap(p)+"|"+typedSnap(f)+"|"+typedSnap(bs) != typedBefore {
 			c.Intact = false
 		}
 		key := multisetKey(class, res)
@@ -126,6 +126,31 @@ func (g *G) runMatchCase(c *matchCase, reps int) {
 				c.Independent = false
 			}
 		}
+	}
+}
+
+// typedSnap is a deep snapshot that also records the Go type of every scalar
+// (json.Marshal prints int(1) and float64(1) alike).
+func typedSnap(x interface{}) string {
+	switch v := x.(type) {
+	case map[string]interface{}:
+		var sb strings.Builder
+		sb.WriteString("{")
+		for _, k := range sortedKeys(v) {
+			sb.WriteString(fmt.Sprintf("%q:%s,", k, typedSnap(v[k])))
+		}
+		sb.WriteString("}")
+		return sb.String()
+	case []interface{}:
+		var sb strings.Builder
+		sb.WriteString("[")
+		for _, y := range v {
+			sb.WriteString(typedSnap(y) + ",")
+		}
+		sb.WriteString("]")
+		return sb.String()
+	default:
+		return fmt.Sprintf("%T:%v", x, x)
 	}
 }
 
